@@ -12,7 +12,7 @@ RULE = ("Hypothesis generates a point of the layout lattice: mount table (home o
         "symlink->sticky, symlink->non-sticky, file, setgid, setuid, a sticky MOUNT POINT}, of "
         "$topdir/.Trash/$uid {absent, dir, file, symlink to another volume, symlink within the volume}, of "
         "$topdir/.Trash-$uid {absent, dir, file, symlink to another volume}, home trash {absent, "
-        "existing, symlink to another volume}, XDG_DATA_HOME {unset, empty, custom, on another "
+        "existing, symlink to another volume}, HOME reached through a symlink that may cross volumes, XDG_DATA_HOME {unset, empty, custom, on another "
         "volume}, HOME set/unset, uid, umask, options {none, --trash-dir on/off the file's volume, "
         "--home-fallback x TRASH_ENABLE_HOME_FALLBACK}, and an entry reached directly, through a "
         "symlinked parent that crosses volumes, or as 'link/' to a directory on another volume. "
@@ -69,6 +69,9 @@ def strategy_(draw, tier):
             "hometrash": draw(st.sampled_from(["absent", "absent", "exists", "link_other"])),
             "xdg": draw(st.sampled_from(["unset", "unset", "unset", "empty", "custom", "othervol", "custom_slash"])),
             "home_slash": draw(st.integers(0, 5)) == 0,
+            # $HOME names the home directory through a symlink (/hl -> /home) that may cross volumes:
+            # the volume of a home trash that does not exist yet is the volume it WILL be created on
+            "home_link": draw(st.integers(0, 4)) == 0,
             "home_set": draw(st.integers(0, 9)) != 0,
             "opt": draw(st.sampled_from(["none", "none", "none", "trash_dir_same", "trash_dir_other",
                                          "trash_dir_link", "fallback_both", "fallback_flag_only",
@@ -142,9 +145,13 @@ def run_case(case):
     allv = ["/"] + vols
     other = [v for v in allv if v != fvol]
     env = {}
+    nodes = []
     if case["home_set"]:
         env["HOME"] = home + ("/" if case.get("home_slash") else "")
-    nodes = []
+        if case.get("home_link"):
+            nodes.append({"p": home, "t": "d"})     # (the link must lead somewhere)
+            nodes.append({"p": "/hl", "t": "l", "to": "/home"})
+            env["HOME"] = "/hl/u" + ("/" if case.get("home_slash") else "")
     xdg = case["xdg"]
     if xdg == "empty":
         env["XDG_DATA_HOME"] = ""
@@ -268,7 +275,8 @@ def run_case(case):
     if state == "T":
         got = pa.new_payloads[info][0]
     cls = "trashed" if want else "must_fail"
-    out.classes += ["layout:" + case["layout"], "top:" + case["top"], "alt:" + case["alt"],
+    out.classes += ["home_link:%s" % bool(case.get("home_link")),
+                    "layout:" + case["layout"], "top:" + case["top"], "alt:" + case["alt"],
                     "opt:" + o, "reach:" + reach, "xdg:" + xdg, "expect:" + cls,
                     "hometrash:" + case["hometrash"], "exit:%d" % res.code]
     if state == "X":
@@ -329,7 +337,8 @@ def run_case(case):
         out.fail("leftovers", "stray infos %s orphan payloads %s" % (si[:2], sp[:2]), **tags)
     if len(vols) >= 1 or case["top"] != "absent" or reach in ("via_cross_link", "link_slash"):
         out.key = [case["layout"], fvol, case["top"], case["uid_state"], case["alt"], case["hometrash"],
-                   xdg, case["home_set"], o, reach, cls, case.get("companion", "none")]
+                   xdg, case["home_set"], o, reach, cls, case.get("companion", "none"),
+                   bool(case.get("home_link"))]
         out.sample = {"layout": case["layout"], "file": e, "arg": arg, "opts": opts, "env": env,
                       "expected": want, "got": got, "exit": res.code}
     return out
